@@ -157,6 +157,8 @@ def obligations(tier):
         if d == "max":
             obs.append(Ob("cost[C,max-str,k=1,w=none]", ob_cost(("C",), "base", "max-str", 1, "none"), 200))
             obs.append(Ob("cost[C,max-str,k=2,w=sym]", ob_cost(("C",), "base", "max-str", 2, "sym"), 200))
+        obs.append(Ob(f"cost_integer_objective[C+D3,{d}]", ob_cost(("C", "D3"), "base", d, 1, "none", f_kind="int"), 200))
+        obs.append(Ob(f"cost_integer_objectives[C,{d},k=2]", ob_cost(("C",), "base", d, 2, "sym", f_kind="int"), 200))
         obs.append(Ob(f"cost_infinite_objective[C,{d}]", ob_cost(("C",), "base", d, 1, "none", f_kind="ext"), 200))
         for (k, j) in ((0, 2), (0, 3), (2, 0), (2, 1), (2, 3), (3, 2), (1, 2), (3, 0)):
             obs.append(Ob(f"mismatch[obj={k},w={j},{d}]", ob_mismatch(k, j, d), 60))
